@@ -318,6 +318,11 @@ pub fn run() -> i32 {
                 ok &= c2.rx_as_slice() == &crx[..] && c2.tx_as_slice() == &ctx_[..];
                 let s2: Session<Vec<u8>> = kpb.kx_new_server_session(&kpa.public_key).unwrap();
                 ok &= s2.rx_as_slice() == &srx[..] && s2.tx_as_slice() == &stx[..];
+                let c3 = Session::new_client_with_defaults(&kpa, &kpb.public_key).unwrap();
+                let s3 = Session::new_server_with_defaults(&kpb, &kpa.public_key).unwrap();
+                ok &= c3.rx_as_slice() == &crx[..] && c3.tx_as_slice() == &ctx_[..] && s3.rx_as_slice() == &srx[..] && s3.tx_as_slice() == &stx[..];
+                let (prx, ptx) = c3.into_parts();
+                ok &= prx.as_slice() == &crx[..] && ptx.as_slice() == &ctx_[..];
             }
             _ => ok = false,
         }
@@ -332,7 +337,12 @@ pub fn run() -> i32 {
             let c = guarded(AssertUnwindSafe(|| crypto_kx_client_session_keys(&mut rx, &mut tx, &pka, ska, peer).is_ok())).unwrap_or(true);
             let s = guarded(AssertUnwindSafe(|| crypto_kx_server_session_keys(&mut rx, &mut tx, &pka, ska, peer).is_ok())).unwrap_or(true);
             let peer_sb: StackByteArray<32> = (*peer).into();
-            let o: bool = Session::<StackByteArray<32>>::new_client(&kpa, &peer_sb).is_ok() || Session::<StackByteArray<32>>::new_server(&kpa, &peer_sb).is_ok();
+            let o: bool = Session::<StackByteArray<32>>::new_client(&kpa, &peer_sb).is_ok()
+                || Session::<StackByteArray<32>>::new_server(&kpa, &peer_sb).is_ok()
+                || Session::new_client_with_defaults(&kpa, &peer_sb).is_ok()
+                || Session::new_server_with_defaults(&kpa, &peer_sb).is_ok()
+                || kpa.kx_new_client_session::<Vec<u8>>(&peer_sb).is_ok()
+                || kpa.kx_new_server_session::<Vec<u8>>(&peer_sb).is_ok();
             let so = sodium::kx_client(&pka, ska, peer).is_some();
             let good = !c && !s && !o;
             st.eval(&("kx-lo", a, b), true, if good { "kx-refuses-low-order" } else { "kx-accepts-low-order" });
